@@ -64,7 +64,7 @@ PROPS = {
         translators=LOCKX,
         race=[("memidm", "", 2), ("memfs", CLEAN, 2), ("memfs", "mkdir,remove", 2), ("orefafs", "mkdir,remove", 2)],
         lin=[("memfs", "deadlock", 25000)],
-        props_files=["Avfs/Props/C07.lean", "Avfs/Props/C07_orefa.lean"],
+        props_files=["Avfs/Props/C07.lean", "Avfs/Props/C07_orefa.lean", "Avfs/Props/C07_rank.lean"],
         parts=[dict(name="memfs"), dict(name="memfs-files"), dict(name="memfs-small"), dict(name="orefa"), dict(name="failfs"), dict(name="rofs"), dict(name="bpfs"), dict(name="path", tags="verif,avfs_setostype")],
         trusted=MODEL_TRUST,
         assumptions=["part (a) only: sequential no-panic / no-hang; interleavings (b)(c) are C06/C08 work in progress"],
@@ -86,11 +86,11 @@ PROPS = {
         not_yet_proved=["sub_sim is proved for resolution and Mkdir, Remove, Stat, Lstat, Readlink, ReadDir, Chtimes, Chmod, Chown, Truncate, Symlink, Link, OpenFile, MkdirAll, Rename, RemoveAll on clean absolute link-free paths (C11_sub_sim_*: same result AND same new heap); for relative paths, paths through links and handle operations it is decided on the implementation by the twin simulation", "sub_confined in the graph sense (Desc of the view root)"],
     ),
     "C14": dict(
-        props_files=["Avfs/Props/C14.lean", "Avfs/Props/C14_walk.lean"],
+        props_files=["Avfs/Props/C14.lean", "Avfs/Props/C14_walk.lean", "Avfs/Props/C14_more.lean"],
         parts=[dict(name="memfs-enum"), dict(name="memfs-small"), dict(name="kernel-enum")],
         trusted=MODEL_TRUST + ["oracle: filepath.Glob, filepath.WalkDir, os.ReadDir through OsFS in a chroot-ed child on tmpfs; callbacks return SkipDir / SkipAll / an error at generated visit indexes"],
         assumptions=["MemFS only (the helpers are generic functions of vfs.go; other file systems run them over their own primitives)", "Linux pattern syntax"],
-        not_yet_proved=["walk_spec (visited sequence = preorder of the tree cut by the actions) beyond the flat case", "glob_spec (set-level characterisation of the matches)"],
+        not_yet_proved=["Glob through symbolic links to directories is characterised by the enumeration over path strings (C14_glob_spec), the heap-level characterisation (C14_glob_spec_heap) assumes no listed directory is reached through a link (witness that it is needed)", "equality with filepath.Glob / filepath.WalkDir is an oracle run"],
     ),
     "C17": dict(
         props_files=["Avfs/Props/C17.lean"],
@@ -140,13 +140,13 @@ PROPS = {
         not_yet_proved=[],
     ),
     "C13": dict(
-        props_files=["Avfs/Props/C13.lean", "Avfs/Props/C13_match.lean"],
+        props_files=["Avfs/Props/C13.lean", "Avfs/Props/C13_match.lean", "Avfs/Props/C13_windows.lean"],
         tags="verif,avfs_setostype",
         parts=[dict(name="path")],
         trusted=["modelled, not verified: strings.EqualFold as ASCII case folding (generator alphabet has no other cased runes); utf8.DecodeRuneInString re-implemented in Lean and compared on every run",
                  "oracle: the toolchain's path/filepath on the Linux host (Linux); for Windows the toolchain's own Windows implementation (GOROOT/src/internal/filepathlite/path_windows.go, path/filepath/{path,path_windows,match}.go) retargeted mechanically on every run by harness/cmd/winx (declarations copied verbatim; runtime.GOOS, os.PathSeparator, os.IsPathSeparator and internal/* helpers rewritten; every loop given an iteration budget because the toolchain's Windows Rel does not terminate on some UNC inputs); Abs on Windows is compared with its documented meaning (Clean / Join with the current directory), syscall.FullPath having no counterpart"],
         assumptions=["string lengths far below 2^31", "SplitAbs is only required to work on absolute paths (its documented precondition)"],
-        not_yet_proved=["Match = declarative glob semantics is proved for both OS types under the explicit decidable hypothesis Safe (only literals between two stars, or: the name has runes of at most 2 bytes and no class can match a separator in it); `true` and ErrBadPattern answers are proved right with NO hypothesis (C13_match_true_sound, C13_match_bad_sound); outside Safe a `false` answer of the non-backtracking star loop can be wrong — as filepath.Match's is (kernel-checked witnesses needSafe_*), so the oracle comparison agrees", "rel_join", "Windows: theorems beyond length/inverse laws and Match (executable model + correspondence only)"],
+        not_yet_proved=["Match = declarative glob semantics is proved for both OS types under the explicit decidable hypothesis Safe (only literals between two stars, or: the name has runes of at most 2 bytes and no class can match a separator in it); `true` and ErrBadPattern answers are proved right with NO hypothesis (C13_match_true_sound, C13_match_bad_sound); outside Safe a `false` answer of the non-backtracking star loop can be wrong — as filepath.Match's is (kernel-checked witnesses needSafe_*), so the oracle comparison agrees", "rel_join", "Windows: laws proved in Props/C13_windows.lean (volume name, FromSlash/ToSlash, Clean = volume ++ component-cleaned rest, IsAbs, Join rules, Split); several expected laws are FALSE for the Windows emulation exactly as for Go's own path/filepath (Clean is not idempotent on exotic inputs, Clean can change what VolumeName sees, IsAbs(Clean p) ≠ IsAbs p: kernel-checked witnesses); volume stability of Clean for UNC / device prefixes is validated by enumeration only"],
     ),
     "C15": dict(
         props_files=["Avfs/Props/C15.lean"],
